@@ -667,6 +667,7 @@ def check(facts, rep, tier, cfg):
     import whomay
     whomay.check(facts, rep, "C01.S7", "C01")
     whomay.check_new_statics(facts, rep, "C01.S7", "C01")
+    whomay.check_new_trait_methods(facts, rep, "C01.S7", "C01")
 
 
 def norm_ty_is_sockaddr(b, l):
